@@ -377,3 +377,11 @@ _targets_without_peaks = targets
 
 def targets():      # noqa: F811
     return _targets_without_peaks() + [target_peak_indices()]
+
+
+_targets_before_purity = targets
+
+
+def targets():      # noqa: F811
+    from . import purity
+    return _targets_before_purity() + [purity.target_modules(["analysis/drt/tr_nnls", "analysis/drt/lm", "analysis/drt/mrq_fit", "analysis/drt/bht", "analysis/drt/tr_rbf", "analysis/drt/result", "analysis/drt/peak_analysis"], "DRT modules keep no state between calls", allowed=("_SOLVER_IMPORTED",))]
